@@ -7,8 +7,12 @@ pub mod p01;
 pub mod p02;
 pub mod p03;
 pub mod p04;
+pub mod p05;
+pub mod p06;
+pub mod p07;
 pub mod p08;
 pub mod p09;
+pub mod p10;
 pub mod p15;
 pub mod p18;
 
@@ -42,7 +46,11 @@ pub fn run_property(world: &World, ctx: &mut Ctx) -> Option<Value> {
         "C02" => p02::run(world, ctx),
         "C03" => p03::run(world, ctx),
         "C04" => p04::run(world, ctx),
+        "C05" => p05::run(world, ctx),
+        "C06" => p06::run(world, ctx),
+        "C07" => p07::run(world, ctx),
         "C08" => p08::run(world, ctx),
+        "C10" => p10::run(world, ctx),
         "C09" => p09::run(world, ctx, ctx.dump.clone().as_deref()),
         "C15" => p15::run(world, ctx),
         "C18" => p18::run(world, ctx),
@@ -58,8 +66,12 @@ pub fn replay_case(ctx: &mut Ctx, gi: &GInfo, rule: usize, doc: &Value) -> Optio
         "C02" => p02::check_input(ctx, gi, rule, input),
         "C03" => p03::replay(ctx, gi, rule, doc),
         "C04" => p04::check_input(ctx, gi, rule, input),
+        "C05" => p05::check_input(ctx, gi, rule, input),
+        "C06" => p06::replay(ctx, gi, rule, doc),
+        "C07" => p07::check_input(ctx, gi, rule, input),
         "C08" => p08::replay(ctx, gi, rule, doc),
         "C09" => p09::replay(ctx, gi, rule, doc),
+        "C10" => p10::check_input(ctx, gi, rule, input),
         "C15" => p15::check_input(ctx, gi, rule, input),
         "C18" => p18::replay(ctx, gi, rule, doc),
         _ => return None,
